@@ -366,6 +366,9 @@ func (r *Resolver) compute(v ssa.Value, d int) *Term {
 	case *ssa.FieldAddr:
 		// address term: only meaningful under a load; give a name anyway
 		base := r.of(x.X, d+1)
+		if sb := stripAddr(base); sb != nil && sb.Op == "mk" {
+			return FieldOf(sb, fieldName(x.X.Type(), x.Field))
+		}
 		return &Term{Op: "field", Name: fieldName(x.X.Type(), x.Field), Args: []*Term{stripAddr(base)}}
 	case *ssa.Field:
 		return FieldOf(r.of(x.X, d+1), fieldNameV(x.X.Type(), x.Field))
@@ -767,6 +770,9 @@ func (r *Resolver) load(u *ssa.UnOp, d int) *Term {
 		}
 		// pointer-valued base: heap access path
 		bt := r.of(a.X, d+1)
+		if sb := stripAddr(bt); sb != nil && sb.Op == "mk" && !(r.Mods != nil && r.Mods.PtrPathWritten(base, path)) {
+			return FieldOf(sb, fieldName(a.X.Type(), a.Field))
+		}
 		t := &Term{Op: "field", Name: fieldName(a.X.Type(), a.Field), Args: []*Term{stripAddr(bt)}}
 		if r.Mods != nil && r.Mods.PtrPathWritten(base, path) {
 			t.Unstable = true
